@@ -59,6 +59,28 @@ class VirtualLoop(base_events.BaseEventLoop):
     def remove_signal_handler(self, sig):
         return self.signal_handlers.pop(sig, None) is not None
 
+    # ---- autonomous mode (run_forever / run_until_complete / IOLoop.run_sync) -----------
+    def _run_once(self):
+        """One iteration of the real BaseEventLoop.run_forever() loop without a
+        selector: when nothing is ready the virtual clock jumps to the earliest
+        timer; with nothing ready and no timer the loop would block forever."""
+        if not self._ready:
+            nt = self.next_timer()
+            if nt is None:
+                raise Livelock("event loop would block forever: nothing ready and no timer")
+            self.advance_to(nt)
+        else:
+            self.advance_to(self.vtime)
+        self.iterations = getattr(self, "iterations", 0) + 1
+        if self.iterations > 100000:
+            raise Livelock("run_forever never stops")
+        ntodo = len(self._ready)
+        for _ in range(ntodo):
+            hd = self._ready.popleft()
+            if not hd._cancelled:
+                hd._run()
+                self.handles_run += 1
+
     # ---- explicit stepping ----------------------------------------------
     def drain(self, limit=200000):
         """Run ready handles FIFO until none is left (asyncio order is
